@@ -32,7 +32,7 @@ pub assume_specification<'a>[ std::path::Path::components ](p: &'a std::path::Pa
     ensures it.remaining() == path_comps(p), it.obeys_prophetic_iter_laws(), it.decrease() is Some;
 
 pub assume_specification<'a>[ <std::path::PathBuf as core::ops::Deref>::deref ](p: &'a std::path::PathBuf) -> (r: &'a std::path::Path)
-    ensures path_comps(r) == pb_comps(p);
+    ensures path_comps(r) == pb_comps(p), path_text_is_rendering(r) == pb_text_is_rendering(p);
 
 // ---- component-sequence vocabulary -------------------------------------------------------------
 pub open spec fn is_rooted(s: Seq<Comp>) -> bool { s.len() > 0 && (s[0] is RootDir || s[0] is Prefix) }
@@ -120,7 +120,7 @@ pub fn vx_extend_rest<'a>(v: &mut Vec<Comp<'a>>, it: &mut std::path::Components<
 // components the collected path has exactly these components
 #[verifier::external_body]
 pub fn vx_comps_to_pathbuf<'a>(comps: &Vec<Comp<'a>>) -> (r: std::path::PathBuf)
-    ensures comps_roundtrip(comps@) ==> pb_comps(&r) == comps@
+    ensures comps_roundtrip(comps@) ==> pb_comps(&r) == comps@ && pb_text_is_rendering(&r)
 { comps.iter().map(|c| c.as_os_str()).collect() }
 pub open spec fn comps_roundtrip(s: Seq<Comp>) -> bool {
     forall|k: int| 0 <= k < s.len() ==> (#[trigger] s[k] is Normal || s[k] is ParentDir)
@@ -158,8 +158,12 @@ pub open spec fn render_rel<'a>(s: Seq<Comp<'a>>) -> Seq<char>
     else { comp_str(s[0]) + "/"@ + render_rel(s.drop_first()) }
 }
 pub uninterp spec fn cow_str_view<'a>(c: std::borrow::Cow<'a, str>) -> Seq<char>;
+// the text of a path is the `/`-joined rendering of its components only if the path was BUILT from components (collect);
+// an arbitrary path keeps its original spelling (`a/./b`), found by the conformance smoke test of this contract
+pub uninterp spec fn path_text_is_rendering(p: &std::path::Path) -> bool;
+pub uninterp spec fn pb_text_is_rendering(p: &std::path::PathBuf) -> bool;
 pub assume_specification<'a>[ std::path::Path::to_string_lossy ](p: &'a std::path::Path) -> (r: std::borrow::Cow<'a, str>)
-    ensures comps_roundtrip(path_comps(p)) ==> cow_str_view(r) == render_rel(path_comps(p));
+    ensures path_text_is_rendering(p) && comps_roundtrip(path_comps(p)) ==> cow_str_view(r) == render_rel(path_comps(p));
 pub broadcast axiom fn axiom_display_cow<'a>(c: &std::borrow::Cow<'a, str>)
     ensures #[trigger] display_view::<std::borrow::Cow<'a, str>>(c) == cow_str_view(*c);
 pub broadcast axiom fn axiom_string_from_cow_obeys<'a>()
